@@ -50,6 +50,8 @@ def gen_long(rng, max_digits, max_exp):
         es = str(e)
         if rng.random() < 0.2:
             es = "0" * rng.randint(1, 3) + es
+        elif rng.random() < 0.04:
+            es = "0" * rng.randint(10, 60) + es       # a long zero-padded exponent field (fixed-width machine notation)
         t += rng.choice("eE") + rng.choice(["", "+", "-"]) + es
     if rng.random() < 0.35:
         t = rng.choice("+-") + t
